@@ -66,6 +66,14 @@ def run_shard(desc, ctx):
                 continue
             for dt in ('int32', 'int64', 'uint32'):
                 run_case({'vec': list(vec), 'dtype': dt, 'shifted': bool(idx % 2), 'rot': idx}, ctx)
+    # the id -1 ("unclustered") in signed vectors: it is an id like any other for the grouping functions
+    for n in range(1, 6):
+        for vec in itertools.product([-1, 0, 3, 7], repeat=n):
+            idx += 1
+            if idx % ns != sh or -1 not in vec:
+                continue
+            for dt in ('int32', 'int64'):
+                run_case({'vec': list(vec), 'dtype': dt, 'shifted': bool(idx % 2), 'rot': idx}, ctx)
     # dtype boundary ids
     for n in range(1, 5):
         for vec in itertools.product([0, 7, 300, 65535], repeat=n):
@@ -120,6 +128,7 @@ def run_case(case, ctx):
         long_ = False
     n = len(sc)
     ids_present = sorted(set(sc.tolist()))
+    has_neg = ids_present[0] < 0
     gap = any(b - a > 1 for a, b in zip(ids_present, ids_present[1:])) or ids_present[0] != 0
     nontriv = gap or len(ids_present) == 1 or sc.dtype.kind == 'u'
     ctx.count(1, key=hkey(tuple(case.get('vec') or case['rand']), case['dtype'], case['shifted']),
@@ -150,7 +159,7 @@ def run_case(case, ctx):
             if isinstance(spc, dict) else spc), feats)
     # _spikes_in_clusters: sorted union of groups (groups by index, so recompute without ids)
     groups = {c: np.nonzero(sc == c)[0] for c in ids_present}
-    pool5 = POOL if max(ids_present) < 100 else ([5, 70000, 9, 123456, 2] if max(ids_present) > 65535 else [0, 7, 65535, 300, 65534])
+    pool5 = (POOL + [-1] if has_neg else POOL) if max(ids_present) < 100 else ([5, 70000, 9, 123456, 2] if max(ids_present) > 65535 else [0, 7, 65535, 300, 65534])
     subsets = [list(s) for r_ in range(0, 6) for s in itertools.combinations(pool5, r_)]
     if long_ or n > 4:
         subsets = [subsets[(case['rot'] * 5 + j * 7) % len(subsets)] for j in range(8)]
@@ -166,6 +175,8 @@ def run_case(case, ctx):
     # absent ids outside the range of the vector's dtype must stay absent (no wrap-around)
     p0 = ids_present[0]
     subsets = subsets + [[65536 + p0], [2 ** 32 + p0, ids_present[-1]], [-1], [p0 - 65536, -(2 ** 32) + p0]]
+    if has_neg:
+        subsets = [s_ for s_ in subsets if all(-1 <= x for x in s_)] + [[-1, ids_present[-1]]]
     rng = np.random.default_rng(case['rot'])
     for sub in subsets:
         sub = list(sub)
@@ -183,6 +194,12 @@ def run_case(case, ctx):
             ctx.violation('selection_not_union', dict(case, subset=sub), d, feats)
     # _unique, _index_of (unsorted lookup), flatten, grouped_mean: judged by M2; failures to run are
     # violations too
+    if has_neg:
+        # _unique / _index_of / grouped_mean are documented for non-negative ids only
+        rr = call(pa._unique, sc)
+        if rr.ok and np.asarray(rr.value).tolist() != [x for x in ids_present if x >= 0]:
+            ctx.violation('unique_mismatch', case, '_unique -> %r' % (np.asarray(rr.value).tolist(),), feats)
+        return
     lookup = np.array(ids_present[::-1] + [max(ids_present) + 4])
     lookup = np.roll(lookup, case['rot'] % len(lookup))
     arr2 = np.stack([np.arange(n) * 0.5, -np.arange(n) ** 2.0], axis=1)
@@ -190,7 +207,9 @@ def run_case(case, ctx):
                     ('_index_of', lambda: pa._index_of(sc, lookup)),
                     ('_flatten_per_cluster', lambda: pa._flatten_per_cluster(spc)),
                     ('grouped_mean', lambda: pa.grouped_mean(np.arange(n) * 1.5 + 1, sc)),
-                    ('grouped_mean', lambda: pa.grouped_mean(arr2, sc))):
+                    ('grouped_mean', lambda: pa.grouped_mean(arr2, sc)),
+                    # values of very different magnitude / non-finite values in a lower cluster must not leak into others
+                    ('grouped_mean', lambda: pa.grouped_mean(np.where(sc == ids_present[0], [1e17, np.nan, np.inf][n % 3], np.arange(n) + 1.), sc))):
         rr = call(f)
         if not rr.ok:
             ctx.violation('raised', case, '%s raised %r' % (name, rr.exc), dict(feats, function=name), tb=rr.tb)
@@ -212,6 +231,7 @@ def _model_case(case, ctx):
     from phylib.io.model import load_model
     rng = np.random.default_rng(case['model'])
     spec = random_spec(rng, clusters=['same', 'curated', 'absent'][int(rng.integers(0, 3))],
+                       sparse_templates=bool(rng.integers(0, 2)),
                        dtype_ids=DTYPES[int(rng.integers(0, 4))], ns=int(rng.integers(10, 80)),
                        spikeless=['none', 'first', 'middle'][int(rng.integers(0, 3))])
     d = scratch_dir('c07_')
